@@ -82,6 +82,13 @@ type Disk struct {
 	ErrKind  error
 	Fired    map[string]int
 	tmpCount int
+
+	// read faults: the ReadErrAt-th read of an existing file since ResetPlan
+	// fails with ReadErrKind (0: never).  Reads are not steps: they change nothing.
+	ReadErrAt   int
+	ReadErrKind error
+	reads       int
+	Reads       []string
 }
 
 func NewDisk() *Disk {
@@ -97,6 +104,7 @@ func Deactivate()      { active.Store(nil) }
 func (d *Disk) ResetPlan() {
 	d.mu.Lock()
 	d.step, d.CrashAt, d.ErrAt, d.Steps = 0, -1, -1, nil
+	d.reads, d.ReadErrAt, d.Reads = 0, 0, nil
 	d.mu.Unlock()
 }
 
@@ -203,6 +211,8 @@ func errName(e error) string {
 		return "EIO"
 	case syscall.ENOSPC:
 		return "ENOSPC"
+	case syscall.EACCES:
+		return "EACCES"
 	}
 	return "err"
 }
@@ -226,7 +236,25 @@ func ReadFile(name string) ([]byte, error) {
 	if !ok {
 		return nil, &os.PathError{Op: "open", Path: name, Err: syscall.ENOENT}
 	}
+	if err := d.readFault(name); err != nil {
+		return nil, err
+	}
 	return append([]byte(nil), v...), nil
+}
+
+// readFault counts one read of an existing file and fails it if planned.
+func (d *Disk) readFault(name string) error {
+	d.reads++
+	d.Reads = append(d.Reads, name)
+	if d.ReadErrAt > 0 && d.reads == d.ReadErrAt {
+		d.Fired[errName(d.ReadErrKind)+"@read"]++
+		op := "read"
+		if d.ReadErrKind == syscall.EACCES {
+			op = "open"
+		}
+		return &os.PathError{Op: op, Path: name, Err: d.ReadErrKind}
+	}
+	return nil
 }
 
 func WriteFile(name string, data []byte, perm FileMode) error {
@@ -267,9 +295,14 @@ func OpenFile(name string, flag int, perm FileMode) (*File, error) {
 	d.mu.Lock()
 	_, exists := d.files[name]
 	if flag&(O_WRONLY|O_RDWR) == 0 {
-		d.mu.Unlock()
 		if !exists {
+			d.mu.Unlock()
 			return nil, &os.PathError{Op: "open", Path: name, Err: syscall.ENOENT}
+		}
+		err := d.readFault(name)
+		d.mu.Unlock()
+		if err != nil {
+			return nil, err
 		}
 		return &File{d: d, name: name, rdOnly: true}, nil
 	}
